@@ -55,3 +55,9 @@ mod index;
 mod lang;
 mod settings;
 mod table;
+
+/// Verification hooks, see `table/verif.rs`.
+#[cfg(rustemo_verif)]
+pub mod verif {
+    pub use crate::table::verif::*;
+}
